@@ -68,7 +68,15 @@ def m_fatal_strikes(it, case):
     return it['detail'] == 'C20:fatal:fleet-strikes'
 
 
-MATCHERS = {'fatal_rebuild_failed': m_fatal_rebuild, 'fatal_fleet_strikes': m_fatal_strikes, 'taint_value_wraps_in_time_unix': m_taint_wrap, 'doc_key_scale_up_cool_down_timeout': m_doc_key_timeout}
+def m_float_short(it, case):
+    """T2: the float delta is exactly one short and a request exceeds 2^53 milli-units (beyond the range in which
+    float64 represents the integers exactly)."""
+    if it['detail'] != 'C05:short:1':
+        return False
+    return max(case.get('cpuReq', 0), case.get('memReq', 0)) >= 2 ** 53
+
+
+MATCHERS = {'float_delta_one_short_huge': m_float_short, 'fatal_rebuild_failed': m_fatal_rebuild, 'fatal_fleet_strikes': m_fatal_strikes, 'taint_value_wraps_in_time_unix': m_taint_wrap, 'doc_key_scale_up_cool_down_timeout': m_doc_key_timeout}
 
 
 def match(prop, it, root):
